@@ -85,7 +85,11 @@ class Sem:
             return str(v)
         if c < 0.9:
             return r.choice(forms)
-        return r.choice(["'a'", "'\\n'", "'\\0'", "'\\x41'", "'\\101'", "'\\\\'", "'\\''", "L'w'"])
+        return r.choice(["'a'", "'\\n'", "'\\0'", "'\\x41'", "'\\101'", "'\\\\'", "'\\''", "L'w'"] + self.BRACKET_CHARS)
+
+    # literals whose text contains brackets, quotes and separators: anything that scans generated text meets them
+    BRACKET_CHARS = ["'('", "')'", "'['", "']'", "'{'", "'}'", "'\"'", "';'", "','", "'?'", "':'", "L'('", "'\\\\'"]
+    BRACKET_STRS = ['"("', '")"', '"f("', '"a)b"', '"[{("', '"}])"', '"\\"("', '"\\\\"', '";"', '"/*"', '"//"', '"\'"']
 
     def fconst(self):
         return self.r.choice(["1.5", ".5", "2.", "1e3", "1.5e-3", "2.5f", "3.0L", "1E+2", "0x1.8p3", "0x1p-2f", "10e1F", "0.0", "09.5", "08e1", "019.", "0078.25f", "1e5f", "2E-3l"])
@@ -131,6 +135,19 @@ class Sem:
             return "sizeof(%s)" % self.type_name() if c < 0.95 else self.iconst()
         a = lambda: self.int_expr(E, d - 1)  # noqa: E731
         c = r.random()
+        if c < 0.08:
+            # character-class tests and indexed string literals: operands that begin with '(' and end with ')' and
+            # contain bracket characters inside literals
+            k = r.random()
+            if k < 0.6:
+                t = "%s %s %s" % ("(%s %s %s)" % (self.int_lvalue(E, 0), r.choice(["==", "!=", "<"]), r.choice(self.BRACKET_CHARS)),
+                                  r.choice(["||", "&&", "+", "-", "|"]),
+                                  "(%s %s %s)" % (self.op(a()), r.choice(["==", "!=", ">"]), r.choice(self.BRACKET_CHARS)))
+                # ... used as an operand of a tighter-binding operator half of the time
+                return t if r.random() < 0.5 else r.choice(["!(%s)", "-(%s)", "~(%s)", "2 * (%s)", "(int)(%s)", "(%s) * 3", "garr[(%s) & 1]"]) % t
+            if k < 0.8:
+                return "%s[%s]" % (r.choice(self.BRACKET_STRS), r.choice(["0", "(0)", "gi & 0"]))
+            return "(fvar(%s, %s) %s (int)sizeof(%s))" % (r.choice(self.BRACKET_STRS), a(), r.choice(["+", "-", "=="]), r.choice(self.BRACKET_STRS))
         if c < 0.30:
             return "%s %s %s" % (self.op(a()), r.choice(["+", "-", "*", "&", "|", "^", "<", ">", "<=", ">=", "==", "!=", "&&", "||"]), self.op(a()))
         if c < 0.36:
@@ -314,7 +331,7 @@ class Sem:
     def stmt(self, E, d, indent, in_loop, in_switch, ret, labels):
         r = self.r
         ind = " " * indent
-        kinds = ["expr", "expr", "expr", "assign", "assign", "if", "ifelse", "while", "do", "for", "fordecl", "switch", "block",
+        kinds = ["expr", "expr", "expr", "assign", "assign", "if", "ifelse", "ifnest", "while", "do", "for", "fordecl", "switch", "block",
                  "return", "label", "empty", "call"]
         if in_loop:
             kinds += ["break", "continue"]
@@ -348,9 +365,20 @@ class Sem:
                     return f"{ind}{{ enum color {{ {t}_X = 40, {t}_Y }} {t} = {t}_Y; gi += {t} + sizeof({t}); }}"
                 body = "{ char x; char y; }" if tag == "struct point" else "{ double big[4]; char i; }"
                 return f"{ind}{{ {tag} {body} {t}; {t}.{'x' if 'point' in tag else 'i'} = 1; gi += (int)sizeof({t}) + (int)sizeof({tag}); }}"
-            return f"{ind};"
+            return f"{ind}" + r.choice([";", ";", "{ }", "{ ; }"])
         if k == "if":
             return f"{ind}if ({self.int_expr(E, 2)})\n{sub()}"
+        if k == "ifnest":
+            # an unbraced if/else as the then-branch of an if/else: the inner else (possibly an empty block or ';') is what
+            # keeps the outer else attached to the outer if
+            inner_then = r.choice([f"{ind}    gi = {self.int_expr(E, 1)};", f"{ind}    {{ gi++; }}", f"{ind}    ;", f"{ind}    {{ }}"])
+            inner_else = r.choice([f"{ind}    {{ }}", f"{ind}    ;", f"{ind}    {{ }}", f"{ind}    gd = 2.0;", f"{ind}    {{ gi--; }}"])
+            oc = r.randrange(3)
+            outer_else = f"{ind}  gi = {self.int_expr(E, 1)};" if oc == 0 else (f"{ind}  {{ }}" if oc == 1 else sub())
+            wrap = r.choice(["", "", "while", "for", "label"])
+            head = {"": "", "while": f"{ind}  while (gi < 0)\n", "for": f"{ind}  for (; gi < 0; gi++)\n", "label": ""}[wrap]
+            return (f"{ind}if ({self.int_expr(E, 1)})\n{head}{ind}  if ({self.int_expr(E, 1)})\n{inner_then}\n{ind}  else\n{inner_else}\n"
+                    f"{ind}else\n{outer_else}")
         if k == "ifelse":
             return f"{ind}if ({self.int_expr(E, 2)})\n{self.block(E, d - 1, indent + 2, in_loop, in_switch, ret, labels)}\n{ind}else\n{sub()}"
         if k == "while":
